@@ -53,7 +53,17 @@ def run(tier):
             raise vlib.Inconclusive("negative control failed: with EchoFirst=FALSE TLC should violate BlameSound")
         rep.notes.append("negative control: with EchoFirst=FALSE (echo compared only in finalize) TLC violates BlameSound at depth %d" % r["depth"])
     # ---- 2. deviations of the catalogue on the real protocols
-    st = adv.run_family(rep, wd, plan(quick), PROP, vlib.seed(), {"C04"}, shards=14)
+    # ---- 3. a presigner whose delta / chi / sigma contribution is inconsistent while its proofs pass (state-level
+    #         cheater through MultiHandler), offline / full / online variants, every position of the cheater
+    cheats = []
+    combos = [("offline", "delta", "b"), ("offline", "chi", "a"), ("full", "gamma", "c"), ("full", "x-chi", "a"), ("online", "k", "c")]
+    if not quick:
+        combos = [(v, r, b) for v in ("offline", "full") for r in ("delta", "gamma", "x-chi", "chi") for b in ("a", "b", "c")] + \
+                 [("online", r, b) for r in ("k", "chi") for b in ("a", "b", "c")]
+    for v, rule, byz in combos:
+        cheats.append({"kind": "presigncheat", "proto": "cmp-presign", "n": 3, "t": 2, "byz": byz, "variant": v, "rule": rule,
+                       "sched": vlib.seed() * 7 + len(cheats)})
+    st = adv.run_family(rep, wd, plan(quick), PROP, vlib.seed(), {"C04"}, shards=14, extra_scen=cheats)
     states += st["states"]; trans += st["transitions"]
     rep.cov.update({"distinct_nontrivial": st["distinct"], "states": states, "transitions": trans,
                     "traces_validated_against_impl": st["traces"], "trace_lines": st["lines"], "catalogue_cases": st["catalogue"],
